@@ -12,6 +12,7 @@ Three layers, all on every run:
     arithmetic on the float32 coordinates with the row's own parameter row: interior samples need
     sd >= -EPS, boundary samples |sd| <= EPS.  NaN / inf coordinates, exceptions on well-formed input and
     calls that do not return within TIMEOUT seconds are failing inputs too."""
+import json
 import math
 from fractions import Fraction as Fr
 from unittest import mock
@@ -408,17 +409,17 @@ def build_proxy_class(tp):
 
         def sample_random_uniform(self, n=None, d=None, params=Points.empty(), device="cpu"):
             r = self.inner.sample_random_uniform(n=n, d=d, params=params, device=device)
-            self.log.append((self.tag, "rand", n, len(params), r.as_tensor.clone()))
+            self.log.append((self.tag, "rand", n, len(params), r.as_tensor.clone(), params.as_tensor.clone() if len(params) else None))
             return r
 
         def sample_grid(self, n=None, d=None, params=Points.empty(), device="cpu"):
             r = self.inner.sample_grid(n=n, d=d, params=params, device=device)
-            self.log.append((self.tag, "grid", n, len(params), r.as_tensor.clone()))
+            self.log.append((self.tag, "grid", n, len(params), r.as_tensor.clone(), params.as_tensor.clone() if len(params) else None))
             return r
 
         def _contains(self, points, params=Points.empty()):
             r = self.inner._contains(points, params)
-            self.log.append((self.tag, "contains", None, len(params), r.reshape(-1).clone()))
+            self.log.append((self.tag, "contains", None, len(params), r.reshape(-1).clone(), None))
             return r
 
         def _get_volume(self, params=Points.empty(), device="cpu"):
@@ -578,6 +579,16 @@ def tape_rows(node, draws, k, n):
     return rows
 
 
+def expected_tape(node, kk, n):
+    """shapes of the torch.rand calls of the modelled parametrisation (Model/GeomSample.lean: primSample)"""
+    inner = node.kids[0].kind if node.kind in ("bdry", "bdryL", "bdryR") else node.kind
+    if node.kind in ("bdryL", "bdryR"):
+        return []
+    if node.kind == "bdry":
+        return [(kk, n, 1)] * (2 if inner == "sphere" else 1)
+    return {"interval": [(kk, n, 1)], "par": [(kk, n, 2)], "tri": [(kk, n, 2)], "circle": [(kk, n, 1)] * 2, "sphere": [(kk, n, 1)] * 3}[inner]
+
+
 def prim_lines(case, res):
     """driver requests of the tape correspondence for a primitive case; None if not applicable"""
     node = geomgen.from_json(case["dom"])
@@ -586,9 +597,11 @@ def prim_lines(case, res):
     k = len(prows)
     dt = node.tokens()
     if api == "dom.random":
+        if [tuple(T.shape) for T in res["tape"]] != expected_tape(node, max(k, 1), n):
+            return "tape-unusable"      # the implementation uses its randomness in another way than the modelled parametrisation
         tr = tape_rows(node, res["tape"], k, n)
         if tr is None or len(tr) != len(res["rows"]):
-            return None
+            return "tape-unusable"
         return [f"prim {dt} {env_tokens(env)} {common.lst(t, common.q)}" for t, (_, env) in zip(tr, res["rows"])]
     if api == "dom.grid":
         env = prows[0] if prows else {}
@@ -601,7 +614,33 @@ def prim_lines(case, res):
             if len(res["tape"]) == 3:
                 a, b, c = [T.reshape(-1).tolist() for T in res["tape"]]
                 tops = [[x, y, z] for x, y, z in zip(a, b, c)]
+        if inner == "tri":
+            # candidates before the first-n cut: which n mesh nodes survive depends on the row order, not on the property
+            o, c1, c2 = [p_.eval(env) for p_ in node.pfs]
+            return ["tripool " + " ".join(common.q(x) for x in (o + c1 + c2)) + f" {n} {common.lst(tops, lambda t: common.lst(t, common.q))}"]
         return [f"grid {dt} {env_tokens(env)} {n} {common.lst(tops, lambda t: common.lst(t, common.q))}"]
+    return None
+
+
+def match_points(impl, model, dim, subset=False):
+    """order-free comparison: every implementation point is matched to a distinct model point within CTOL
+    (subset=False: same number of points).  Returns None if they match, else a description."""
+    ip = [impl[i:i + dim] for i in range(0, len(impl), dim)]
+    mp = [model[i:i + dim] for i in range(0, len(model), dim)]
+    if (len(ip) != len(mp)) if not subset else (len(ip) > len(mp)):
+        return f"{len(ip)} implementation points, {len(mp)} model points"
+    used = [False] * len(mp)
+    for p_ in ip:
+        best, bj = None, -1
+        for j, q_ in enumerate(mp):
+            if used[j]:
+                continue
+            w = compare_coords(p_, q_)
+            if best is None or w < best:
+                best, bj = w, j
+        if best is None or best > CTOL:
+            return f"implementation point {p_} is not among the model's points (closest unused one differs by {best})"
+        used[bj] = True
     return None
 
 
@@ -612,6 +651,41 @@ def compare_coords(impl, model):
             return float("inf")
         worst = max(worst, abs(a - b) / max(1.0, abs(b)))
     return worst
+
+
+def canonical_selection(case, rounds, pts, n, k):
+    """what the PROPERTY needs from a rejection sampler, independent of the loop's schedule: every returned row is
+    (bit-equal to) a proposal of the first operand that the partner test accepted, generated for the row's own parameter
+    row.  Which accepted proposals are returned, from which round, and how many rounds there were is not checked here.
+    Returns None if this holds, else a description."""
+    import torch
+    prows = prows_of(case)
+    names = case["params"]
+    want = [[float(r[p][0]) for p in names] for r in prows]
+    for r in range(pts.shape[0]):
+        row = r // n if k else 0
+        found = False
+        for rd in rounds:
+            P = rd["pts"]
+            m = P.shape[0]
+            hit = (P == pts[r]).all(dim=1)
+            for j in torch.nonzero(hit).reshape(-1).tolist():
+                if not rd["ok"][j]:
+                    continue
+                if k:
+                    pr = rd["params"]
+                    if pr is None:
+                        continue
+                    pj = pr[0] if pr.shape[0] == 1 else pr[j // max(m // pr.shape[0], 1)]
+                    if [float(x) for x in pj.tolist()] != [float(torch.tensor(x, dtype=torch.float32)) for x in want[row]]:
+                        continue
+                found = True
+                break
+            if found:
+                break
+        if not found:
+            return f"returned row {r} ({pts[r].tolist()}) is not an accepted proposal generated for parameter row {row}"
+    return None
 
 
 def selection_check(case, res):
@@ -631,13 +705,14 @@ def selection_check(case, res):
         a, b = log[i], log[i + 1]
         if a[0] == "A" and a[1] in ("rand", "grid") and b[0] == "B" and b[1] == "contains" and len(b[4]) == len(a[4]):
             ok = [bool(x) != invert for x in b[4].tolist()]
-            rounds.append(dict(kind=a[1], n=a[2], pts=a[4], ok=ok))
+            rounds.append(dict(kind=a[1], n=a[2], pts=a[4], ok=ok, params=a[5]))
             i += 2
         else:
             return None
     if i != len(log) or not rounds:
         return None
     bits = lambda r: common.lst(r["ok"], common.q)
+    canon = canonical_selection(case, rounds, pts, n, k)
     if api == "sel.random" and n >= 2:
         # D.1: one loop per parameter row; a row ends with the first round that has >= n valid proposals
         subs, pos = [], 0
@@ -650,7 +725,7 @@ def selection_check(case, res):
             subs.append(rounds[pos:pos + cnt])
             pos += cnt
         if pos != len(rounds):
-            return ([], lambda replies: ("number of rounds differs", dict(model_used=pos, implementation=len(rounds))))
+            return ([], lambda replies: ("number of rounds differs", dict(model_used=pos, implementation=len(rounds))), canon)
         lines = [f"inside {n} {len(sub) + 2} {common.lst(sub, bits)}" for sub in subs]
 
         def evaluate(replies):
@@ -669,7 +744,7 @@ def selection_check(case, res):
             if exp.shape != pts.shape or not torch.equal(exp, pts):
                 return ("returned rows are not the first n valid proposals of the last round", dict(expected=exp.tolist()[:4], got=pts.tolist()[:4]))
             return None
-        return lines, evaluate
+        return lines, evaluate, canon
     if api == "sel.random" and n == 1:
         lines = [f"n1 {len(rounds) + 2} {k} {common.lst(rounds, bits)}"]
 
@@ -684,7 +759,7 @@ def selection_check(case, res):
             if exp.shape != pts.shape or not torch.equal(exp, pts):
                 return ("returned rows differ from the last valid proposal of each row", dict(expected=exp.tolist()[:4], got=pts.tolist()[:4]))
             return None
-        return lines, evaluate
+        return lines, evaluate, canon
     if api == "sel.grid" and rounds[0]["kind"] == "grid":
         # D.3: first grid (n), optional second grid (m), optional random top-up (D.1 rounds, checked by membership only)
         g1 = rounds[0]
@@ -712,13 +787,45 @@ def selection_check(case, res):
                 if len(exp) > len(pts) or not torch.equal(exp, pts[:len(exp)]):
                     return ("grid rows differ from the valid grid points in order", dict(expected=exp.tolist()[:4], got=pts.tolist()[:4]))
             return None
-        return lines, evaluate
+        return lines, evaluate, canon
     return None
 
 
 # ---------------------------------------------------------------------------------------------
 
-def run(ctx, rep, cases=None):
+def intensify(ctx, rep, n_dis_before):
+    """a correspondence broke: before `no-failing-input-found` is concluded, the failing-input search is intensified on exactly
+    those cases — the same expression / call re-run with many seeds and with larger n, every row judged by the exact oracle"""
+    seen, variants = set(), []
+    for dsg in rep.disagreements[n_dis_before:]:
+        inp = dsg["input"]
+        if not isinstance(inp, dict) or "dom" not in inp or "call" not in inp:
+            continue
+        key = json.dumps([inp["dom"], inp["call"], inp["prows"]], sort_keys=True, default=str)
+        if key in seen or len(seen) >= 6:
+            continue
+        seen.add(key)
+        mode = "solid" if inp["mode"] == "sel" else inp["mode"]       # plain library objects instead of proxies
+        for j in range(ctx.scale(24, 60)):
+            call = dict(inp["call"])
+            if mode != inp["mode"]:
+                call["api"] = call["api"].replace("sel.", "dom.")
+            if "d" not in call and j % 3 == 2 and not call["api"].endswith("grid"):
+                call["n"] = 60
+            variants.append(dict(id=10 ** 6 + len(variants), mode=mode, dom=inp["dom"], params=inp["params"], prows=inp["prows"], call=call,
+                                 seed=(inp["seed"] * 7919 + 104729 * j) % (2 ** 31 - 1)))
+    if not variants:
+        return
+    sub = common.Report(ctx)
+    run(ctx, sub, variants, _intensified=True)
+    rep.count("intensified-search:cases", len(variants))
+    rep.count("intensified-search:rows", sub.hist.get("rows-checked", 0))
+    rep.failures += sub.failures
+    for kf, ex in sub.known_hits.items():
+        rep.known_hits.setdefault(kf, ex)
+
+
+def run(ctx, rep, cases=None, _intensified=False):
     rep.rule = ("(a) domain expressions generated from the public constructors (primitives incl. slanted / clockwise / parameter-dependent "
                 "ones, their boundaries, union / cut / intersection / translate / rotate nestings of depth <= 3 (thorough 4), products incl. "
                 "dependent ones), every Boolean node certified to have positive measure; sampled through Domain.sample_random_uniform / "
@@ -727,6 +834,7 @@ def run(ctx, rep, cases=None):
                 "(b) oracle-only streams (harness/c01_opaque.py): ShapelyPolygon (convex / star / dart / rectilinear / with hole), TrimeshPolyhedron, Point, "
                 "polygons in cut / intersection / union / motions / products with modelled shapes, composed samplers (append, +, *, static, filtered) "
                 "over parameter-dependent domains with >= 2 parameter rows judged with the parameter columns of the same row")
+    n_dis_before = len(rep.disagreements)
     if cases is None:
         # oracle-only streams: ShapelyPolygon / TrimeshPolyhedron / Point (exact membership oracles in the harness),
         # polygons inside operations, composed samplers with the own-row oracle
@@ -746,6 +854,7 @@ def run(ctx, rep, cases=None):
     lines = []
     spans = []
     sels = []
+    unusable = []
     timeouts = 0
     for cs in cases:
         node = geomgen.from_json(cs["dom"])
@@ -765,6 +874,12 @@ def run(ctx, rep, cases=None):
         pl = None
         if "rows" in res and cs["mode"] in ("prim", "primbdry") and cs["call"]["api"] in ("dom.random", "dom.grid"):
             pl = prim_lines(cs, res)
+            if pl == "tape-unusable":
+                # no correspondence possible: the exact membership oracle above is the judge of this case; it is also re-run with
+                # more seeds below (counted in the evidence, not a disagreement)
+                rep.count("tape-unusable:" + "-".join(node.kinds()))
+                unusable.append(cs)
+                pl = None
             if pl:
                 lines += pl
         c = len(lines)
@@ -860,11 +975,17 @@ def run(ctx, rep, cases=None):
                 else:
                     toks = rl.split()
                     model = [common.unfbits(t) for t in toks[1:]]
-                    if int(toks[0]) != len(res["rows"]) or compare_coords(impl, model) > CTOL:
+                    dim = len(impl) // max(len(res["rows"]), 1)
+                    # the grid is compared as a SET of points (row order is not part of the property); for the triangle the
+                    # implementation's points must be n distinct members of the model's candidate pool
+                    why = match_points(impl, model, dim, subset=(node.kind == "tri")) if res["rows"] else "no rows"
+                    if why is None and node.kind == "tri" and len(res["rows"]) != call["n"]:
+                        why = f"{len(res['rows'])} points for n={call['n']}"
+                    if why is not None:
                         if grid_tie(cs, node, res):
                             rep.count("grid:near-tie(skipped)")
                         else:
-                            rep.disagree("tape correspondence (grid)", dict(inp, request=lines[b][:300]), impl[:8], model[:8])
+                            rep.disagree("tape correspondence (grid, as a set of points): " + why, dict(inp, request=lines[b][:300]), impl[:8], model[:8])
                     else:
                         rep.count("grid:cases-agree")
         if cs["mode"] == "sel":
@@ -873,10 +994,24 @@ def run(ctx, rep, cases=None):
             else:
                 r = sel[1](replies[c:e])
                 rep.traces_validated += 1
-                if r is None:
+                if sel[2] is not None:
+                    # the schedule-independent requirement fails: a correspondence the theorems need (insideRow_sound, n1Loop_sound,
+                    # gridInside_sound: only accepted proposals of the own parameter row are returned)
+                    rep.disagree("selection correspondence (canonical): " + sel[2], inp, r[1] if r else None, None)
+                elif r is None:
                     rep.count("selection:agree:" + call["api"])
                 else:
-                    rep.disagree("selection correspondence (" + r[0] + ")", inp, r[1], None)
+                    # same accepted proposals, other schedule (which ones / how many rounds): not part of the property
+                    rep.count("selection:schedule-differs(canonical check passed):" + call["api"] + ":" + r[0][:40])
+    if not _intensified and unusable and not rep.failures:
+        fake = [dict(input=dict(dom=c_["dom"], call=c_["call"], prows=c_["prows"], params=c_["params"], mode=c_["mode"], seed=c_["seed"]))
+                for c_ in unusable]
+        keep = rep.disagreements
+        rep.disagreements = fake
+        intensify(ctx, rep, 0)
+        rep.disagreements = keep
+    if not _intensified and len(rep.disagreements) > n_dis_before and not rep.failures:
+        intensify(ctx, rep, n_dis_before)
 
 
 def near_tie(node, line):
